@@ -5,6 +5,7 @@ import (
 	"regexp"
 	"strconv"
 	"strings"
+	"unicode"
 
 	"github.com/fabiolb/fabio/route"
 	"verif/harness/hx"
@@ -86,6 +87,23 @@ func reTokens(s string) []string {
 	return out
 }
 
+// trimVariants returns tok and what strings.TrimSpace can leave of it when it stands first, last or alone on a line.
+func trimVariants(tok string) []string {
+	out := []string{tok}
+	for _, v := range []string{strings.TrimSpace(tok), strings.TrimLeftFunc(tok, unicode.IsSpace), strings.TrimRightFunc(tok, unicode.IsSpace)} {
+		dup := v == ""
+		for _, o := range out {
+			if o == v {
+				dup = true
+			}
+		}
+		if !dup {
+			out = append(out, v)
+		}
+	}
+	return out
+}
+
 func ratOf(tok string) interface{} {
 	f, err := strconv.ParseFloat(tok, 64)
 	if err != nil {
@@ -102,11 +120,9 @@ func textOracle(text string) (pf, urls, globs map[string]interface{}) {
 	globs = map[string]interface{}{}
 	var toks []string
 	for _, tok := range reTokens(text) {
-		// a token at the start or end of a line may lose Unicode white space to strings.TrimSpace
-		toks = append(toks, tok)
-		if tr := strings.TrimSpace(tok); tr != tok && tr != "" {
-			toks = append(toks, tr)
-		}
+		// a token at the start or end of a line may lose Unicode white space to strings.TrimSpace: at the start
+		// its leading part, at the end its trailing part, both when it is the whole line
+		toks = append(toks, trimVariants(tok)...)
 	}
 	for _, tok := range toks {
 		if len(tok) > 4096 {
